@@ -108,7 +108,8 @@ func NewSolarFromJulianDay(julianDay float64) *Solar {
 	}
 	if hour > 23 {
 		hour -= 24
-		day += 1
+		// carry into the next day through the calendar, so month/year ends and the 1582 gap are respected
+		return NewSolar(year, month, day, hour, minute, second).NextDay(1)
 	}
 
 	return NewSolar(year, month, day, hour, minute, second)
